@@ -154,6 +154,18 @@ class ExprMixin:
                                               or (self.symbolic_globals is not True and nm in self.symbolic_globals)):
                     return nf.sym(f'{m.name}.{nm}')      # the physical constants stay symbols (H, C, K); other numbers are values
                 return self.e_Constant(val, None)
+            if isinstance(val, ast.Dict) and val.keys and all(k is not None and isinstance(k, ast.Constant) for k in val.keys) and \
+                    all(isinstance(v_, (ast.Lambda, ast.Name, ast.Attribute)) for v_ in val.values) and \
+                    any(isinstance(v_, ast.Lambda) for v_ in val.values):
+                # a dispatch table {key: lambda ...}: read by value so that TABLE[key](x) is the call of that function
+                prev, self.cur = self.cur, _ModuleScope(m, self.cur)
+                try:
+                    from .state import State
+                    return self.eval(val, State())
+                except Exception:
+                    pass
+                finally:
+                    self.cur = prev
             if isinstance(val, ast.Call) and (dotted(val.func) or '').split('.')[-1] == 'partial' and \
                     (dotted(val.func) or '').split('.')[0] in ('functools', 'partial'):
                 # NAME = functools.partial(f, ...) at module level: a callable bound once
